@@ -12,7 +12,7 @@ K == atoi(IOEnv.GEN_K)      \* steps after the prefix (environment: the tiers di
 VARIABLES hist, done
 varsG == <<wr, src, bufs, last, hist, done>>
 
-MkSrc(s, n) == [a |-> "SrcMake", arg |-> [s |-> s, sk |-> IF IsVec(s) THEN "vec" ELSE "arr", vals |-> Fresh(s, n)]]
+MkSrc(s, n) == [a |-> "SrcMake", arg |-> [s |-> s, sk |-> IF IsVec(s) THEN "vec" ELSE "arr", runs |-> PalCont(0, s, n)]]
 PrefixSteps ==
   CASE Prefix = "none"   -> <<>>
     [] Prefix = "vec"    -> <<MkSrc(1, MaxLen)>>
